@@ -717,6 +717,45 @@ def build_request(codec, m, args, proto, header=None):
     return etree.tostring(doc, xml_declaration=True, encoding='UTF-8')
 
 
+def parse_request(codec, m, data, proto):
+    """-> list of argument values read from a wrapped-style request under the published schema (what a schema-driven,
+    non-Spyne server would make of it; names are namespace-qualified, order is the schema's)"""
+    try:
+        root = etree.fromstring(data)
+    except etree.XMLSyntaxError as e:
+        raise DecodeError('request is not well-formed XML: %s' % e)
+    env = envelope_ns(proto)
+    if env:
+        if root.tag != q(env, 'Envelope'):
+            raise DecodeError('root is %s, not a %s Envelope' % (root.tag, proto))
+        body = root.find(q(env, 'Body'))
+        kids = [c for c in body if isinstance(c.tag, str)] if body is not None else []
+        if len(kids) != 1:
+            raise DecodeError('Body has %d children' % len(kids))
+        payload = kids[0]
+    else:
+        payload = root
+    decl = codec.s.global_element(codec.b.tns, in_message_name(m))
+    if payload.tag != decl.tag:
+        raise DecodeError('request element is %s, the schema declares %s' % (payload.tag, decl.tag))
+    if body_style(m) == 'bare':
+        raise SchemaError('bare requests are not read back')
+    ct = codec.s.complex(decl)
+    ps, _ = codec.s.all_particles(ct)
+    margs = m.get('args', [])
+    if [p.name for p in ps] != [a[0] for a in margs]:
+        raise SchemaError('request message %s lists %s, signature has %s' % (decl.name, [p.name for p in ps], [a[0] for a in margs]))
+    children = [c for c in payload if isinstance(c.tag, str)]
+    pos = 0
+    vals = []
+    for p, a in zip(ps, margs):
+        v, pos = codec.take(children, pos, p, a[1])
+        vals.append(v)
+    if pos != len(children):
+        raise DecodeError('unexpected element %s in request' % children[pos].tag)
+    return vals
+
+
 class FaultDoc(object):
     def __init__(self, code, string, actor=None, detail=None, subcodes=None):
         self.code, self.string, self.actor, self.detail = code, string, actor, detail
